@@ -138,6 +138,28 @@ Theorem reread_decimal_comma_ambiguous_refuted :
 Proof. exists 310200000, 6. split; [lia|]. split; [lia|]. vm_compute. discriminate. Qed.
 Print Assumptions reread_decimal_comma_ambiguous_refuted.
 
+(* "unless fixed by a commodity format directive": the directive's amount is read like any other (it teaches its flags
+   and decimals), and from then on nothing teaches the commodity anything - what is displayed is what was learned up to
+   and including the directive, whatever is written afterwards (finfo / learn_f / fix_format in Model/AmountText.v; the
+   correspondence runs journals with such directives, later postings written in other styles, against ledger) *)
+Theorem format_directive_fixes_display : forall f p st l,
+  learn_f_all (fix_format f p st) l = fix_format f p st.
+Proof. exact format_fixes_display. Qed.
+Print Assumptions format_directive_fixes_display.
+
+Theorem display_info_around_a_format_directive : forall ci before p st after,
+  fi_info (learn_f_all (fix_format (learn_f_all (mkFI ci false) before) p st) after) =
+  learn (learn_all ci before) p st.
+Proof. exact display_info_with_format_directive. Qed.
+Print Assumptions display_info_around_a_format_directive.
+
+Example ex_format_directive :
+  let plain := mkStyle false false false false in
+  let marks := mkStyle true true true false in
+  fi_info (learn_f_all (fix_format (mkFI (mkCI 0 plain) false) 2 plain) [(4, marks); (0, marks)]) = mkCI 2 plain /\
+  fi_info (learn_f_all (mkFI (mkCI 0 plain) false) [(4, marks); (0, marks)]) = mkCI 4 marks.
+Proof. vm_compute. split; reflexivity. Qed.
+
 (* the tie to the source by translation: the lines of /repo/src this model transcribes (harness/translators/src_guards.py
    lists them, with the function each is looked for in) are still there, in the same order, in the source as it is NOW -
    coq/Gen/SourceGuards.v is regenerated on every run and names the guards that are false *)
